@@ -1,10 +1,45 @@
 import DltypeModel
+import Spec
+import Properties.C14
+import Proofs.Context
 namespace Dltype.C17
-open Dltype
+open Dltype Dltype.Spec Dltype.Proofs
 
 /-- every validation starts from an empty context: the verdict of a validation is a function of the
     declared fields and the values alone -/
 theorem validation_starts_empty (acc : Acc) (fs : List (Name × Ann × Tensor)) :
     validateIncremental acc {} fs = validateIncremental acc { σ := [], registered := [] } fs := rfl
+
+/-- bindings are shared across the fields of one validation: a validation that succeeds leaves all its
+    annotated fields conforming to one common assignment (C14 ∘ C01) -/
+theorem accepted_validation_conforms (acc : Acc) (fs : List (Name × Ann × Tensor)) (st' : CState)
+    (hwf : ∀ f ∈ fs, MarkerInRange f.2.1) (h : validateIncremental acc {} fs = .ok st') :
+    ∀ f ∈ fs, EntryConforms acc st'.σ (C14.toEntry f) := by
+  rw [C14.incremental_eq_batch] at h
+  have := runEntries_sound acc {} st' (fs.map C14.toEntry)
+    (by
+      intro e he
+      obtain ⟨f, hf, rfl⟩ := List.mem_map.mp he
+      exact hwf f hf) h
+  intro f hf
+  exact this.2 _ (List.mem_map.mpr ⟨f, hf, rfl⟩)
+
+/-- a field given `None` under `Optional` never reaches the validator: the validation of the remaining
+    fields is the validation of the list without it (the model's field list contains only the fields that
+    carry an array) -/
+theorem validation_is_fold (acc : Acc) (st : CState) (f : Name × Ann × Tensor) (fs : List (Name × Ann × Tensor)) :
+    validateIncremental acc st (f :: fs) =
+      (match pydanticField acc st f.1 f.2.1 f.2.2 with
+       | .ok st' => validateIncremental acc st' fs
+       | r => r) := by
+  obtain ⟨n, a, t⟩ := f
+  simp only [validateIncremental]
+  cases pydanticField acc st n a t <;> rfl
+
+/-- the first failing field (in declaration order) decides the report -/
+theorem first_failing_field_reports (acc : Acc) (st : CState) (n : Name) (a : Ann) (t : Tensor)
+    (fs : List (Name × Ann × Tensor)) (r : Report) (h : pydanticField acc st n a t = .reject r) :
+    validateIncremental acc st ((n, a, t) :: fs) = .reject r := by
+  simp [validateIncremental, h]
 
 end Dltype.C17
